@@ -41,6 +41,11 @@ def parse_bad(out):
 def validate_traces(paths, clauses, par=8, timeout=900):
     """Run EngineTrace on each NDJSON file with the given clauses. Returns list of (path, bad list, n_steps)."""
     def one(p):
+        if os.environ.get("VERIF_NEGATIVE_CONTROL"):  # ./check selftest: corrupt observed fields of some step records of this trace
+            lines = open(p).read().splitlines()
+            recs = C.corrupt_one([json.loads(l) for l in lines[1:]], int(os.environ["VERIF_NEGATIVE_CONTROL"] or 1) + 2)
+            with open(p, "w") as f:
+                f.write(lines[0] + "\n" + "\n".join(json.dumps(r) for r in recs) + "\n")
         d = C.prepare_specdir(["Big", "EngineTrace"], {"T.cfg": O.trace_cfg(clauses)})
         r = C.run_tlc(d, "EngineTrace", cfg="T.cfg", workers=1, env={"TRACE_FILE": p}, xss="512m", timeout=timeout)
         shutil.rmtree(d, ignore_errors=True)
